@@ -321,6 +321,16 @@ def one_list_rule(repo: Repo, rep: Report, rid: str) -> None:
     rep.rule(rid, "one field list: _update_fields hands the same field-name view to the __eq__, __hash__ and __bool__ generators and the same raw field "
                   "list to __init__; unions take Union.__eq__")
     fi = repo.func("types/structure.py", "StructureMetaType._update_fields")
+    from .c18 import update_fields_fold
+
+    uf = update_fields_fold(repo)
+    if uf is not None:
+        bad = [b_ for b_ in uf["bad"] if "class dict differs" in b_[1] and any(k in b_[1] for k in ("__eq__", "__hash__", "__bool__", "__init__", "'fields'", "'lookup'"))]
+        rep.check(not bad, rid, f"{fi.key}:field-names", f"folded over {uf['cases']} cases: __eq__ / __hash__ / __bool__ are generated from the folded field names, "
+                  "__init__ from the raw field list, unions take Union.__eq__, each installed under its own name",
+                  f"_update_fields for '{bad[0][0] if bad else ''}': {bad[0][1] if bad else ''}", fi.loc())
+        _one_list_tail(repo, rep, rid, fi)
+        return
     calls = {}
     for s in walk_body(fi.node.body):
         if isinstance(s, ast.Assign) and isinstance(s.value, ast.Call) and call_name(s.value).startswith("_generate"):
@@ -348,6 +358,10 @@ def one_list_rule(repo: Repo, rep: Report, rid: str) -> None:
     rep.check(targets == want, rid, f"{fi.key}:installation", "each generated method is installed under its own name", f"generated methods installed as {targets}", fi.loc())
     ue = [s for s in walk_body(fi.node.body) if isinstance(s, ast.Assign) and norm(s.targets[0]) == "classdict['__eq__']" and norm(s.value) == "Union.__eq__"]
     rep.check(len(ue) == 1, rid, f"{fi.key}:union-eq", "unions compare by bytes (Union.__eq__)", "unions no longer take Union.__eq__", fi.loc())
+    _one_list_tail(repo, rep, rid, fi)
+
+
+def _one_list_tail(repo: Repo, rep: Report, rid: str, fi) -> None:
     u = repo.func_opt("types/structure.py", "Union.__eq__")
     if u is None:
         rep.fail(rid, "types/structure.py:Union.__eq__:return", "Union.__eq__ no longer exists: unions would be compared field by field, but structure-typed members "
